@@ -129,15 +129,12 @@ impl RibbitClient {
                     Ok(n) => {
                         buffer.extend_from_slice(&temp_buf[..n]);
 
-                        // For V2 responses, check for double newline terminator
-                        // For V1 MIME responses, we need to read until connection closes
-                        // or we detect the complete MIME structure
-                        if buffer.ends_with(b"\n\n") {
-                            // Check if this might be a V1 MIME response that's not complete
-                            if !is_v1_mime_response(&buffer) {
-                                break;
-                            }
-                        }
+                        // The server closes the connection after the response and our
+                        // write side is already shut down, so the response ends where the
+                        // stream ends. Stopping at an empty line instead would make the
+                        // result depend on where TCP happened to split the bytes: a read
+                        // that ends right after an interior empty line would cut the
+                        // response there.
 
                         // Safety limit - V1 responses can be larger due to signatures
                         if buffer.len() > 50 * 1024 * 1024 {
